@@ -73,7 +73,7 @@ def gen_item(r, ns, tries, maxr, pw):
     h1, h2 = {}, {}
     kind = r.choice(['loop2', 'self', 'chain', 'chain-exact', 'noloc', 'emptyloc', 'badloc', 'badport', 'err5xx', 'reset', 'mixed-errors',
                      'auth401', 'auth-alt', 'auth-alt-303', 'cross-host', 'loc-on-401', 'ok', 'notfound', 'redirect-then-500',
-                     'reset-then-ok', '401-then-redirect', 'loc-on-200-chain'])
+                     'reset-then-ok', '401-then-redirect', 'loc-on-200-chain', 'throttle', 'throttle'])
     code = r.choice(REDIRECTS)
     if kind == 'loop2':
         h1[base + 's'] = _redir(code, base + 'b')
@@ -137,6 +137,22 @@ def gen_item(r, ns, tries, maxr, pw):
         h1[base + 's'] = _redir(code, base + 'm')
         h1[base + 'm'] = _redir(r.choice(REDIRECTS), base + 'n')
         h1[base + 'n'] = {'status': 200, 'body': 'ok', 'location': base + 'never'}
+    elif kind == 'throttle':
+        # "come back later" answers, with and without Retry-After: every attempt counts against --tries
+        st = r.choice([429, 503, 503, 408, 504])
+        seq = [{'status': st, 'body': 'later', 'headers': {'Retry-After': r.choice(['0', '1', 'Wed, 21 Oct 2015 07:28:00 GMT'])}}
+               for _ in range(r.randrange(1, 2 * tries + 3))]
+        seq.append({'status': 200, 'body': 'finally'})
+        h1[base + 's'] = {'seq': seq}
+    # response header fields a client might be tempted to act on; none of them changes the accounting of the visit
+    for pages in (h1, h2):
+        for page in pages.values():
+            for p in (page.get('seq') or [page]):
+                if p.get('status', 200) >= 300 and not p.get('reset') and r.random() < 0.25:
+                    hd = dict(p.get('headers') or {})
+                    hd.setdefault(*r.choice([('Retry-After', '0'), ('Retry-After', '1'), ('Connection', 'close'), ('Cache-Control', 'no-store'),
+                                             ('Link', '</other>; rel="canonical"'), ('Content-Location', base + 'elsewhere')]))
+                    p['headers'] = hd
     return h1, h2, kind
 
 
@@ -164,7 +180,8 @@ def gen_crawl(r):
         args += ['-r', '-l', '1']           # wpull switches robots.txt handling off unless the crawl is recursive
         for host in ('h1', 'h2'):
             paths = sorted(site[host])
-            kind = r.choice(['404', 'rules', 'rules'] + (['503'] if host == 'h2' else []))
+            # a robots.txt that keeps answering 5xx postpones every URL of the origin; each postponed visit counts against --tries
+            kind = r.choice(['404', 'rules', 'rules', '503'] if host == 'h2' else ['404', '404', 'rules', 'rules', 'rules', '503'])
             deny = sorted(set(r.choice(paths) for _ in range(r.randrange(1, 4)))) if (kind == 'rules' and paths) else []
             robots[host] = {'kind': kind, 'deny': deny}
             if kind == '404':
